@@ -7,6 +7,7 @@ import (
 	"errors"
 	"fmt"
 	"strings"
+	"time"
 
 	ch "github.com/ClickHouse/ch-go"
 	"github.com/ClickHouse/ch-go/proto"
@@ -201,7 +202,17 @@ func (k c03case) expected() (trace []string, result string) {
 	return trace, "nil" // unreachable: every script ends with Z
 }
 
-func body03(k c03case) Body {
+// seg describes how the transport delivers the server stream (C08).
+type seg struct {
+	cuts    []int // offsets within the query's server stream where a read must stop
+	oneByte bool
+	gaps    bool // an idle gap longer than the read timeout between packets
+	perPkt  bool // one delivery per packet (no gaps)
+}
+
+func body03(k c03case) Body { return body03seg(k, seg{perPkt: true}, "C03") }
+
+func body03seg(k c03case, sg seg, prop string) Body {
 	return func() Outcome {
 		opt := ch.Options{ProtocolVersion: k.rev}
 		if k.lz4 {
@@ -211,7 +222,7 @@ func body03(k c03case) Body {
 		hello.Revision = k.rev
 		c, err := Connect(opt, hello)
 		if err != nil {
-			return Outcome{Key: "C03/handshake-failed", Detail: err.Error()}
+			return Outcome{Key: prop + "/handshake-failed", Detail: err.Error()}
 		}
 		defer vsched.Quiet(func() { _ = c.C.Close() })
 		var trace []string
@@ -310,9 +321,26 @@ func body03(k c03case) Body {
 			}
 		}
 		steps := []Step{{Name: "await-query", AwaitN: 2}}
-		for _, p := range k.script {
-			steps = append(steps, Step{Name: p.sym, Send: p.bytes(c.W)})
+		if sg.gaps {
+			for _, p := range k.script {
+				steps = append(steps, Step{Name: "gap", Gap: ch.DefaultReadTimeout + 500*time.Millisecond}, Step{Name: p.sym, Send: p.bytes(c.W)})
+			}
+		} else if sg.perPkt {
+			for _, p := range k.script {
+				steps = append(steps, Step{Name: p.sym, Send: p.bytes(c.W)})
+			}
+		} else {
+			// the whole stream in one delivery: only the cuts decide what a read returns
+			var all []byte
+			for _, p := range k.script {
+				all = append(all, p.bytes(c.W)...)
+			}
+			steps = append(steps, Step{Name: "stream", Send: all})
 		}
+		for _, cut := range sg.cuts {
+			c.C.Cuts = append(c.C.Cuts, c.HsIn+cut)
+		}
+		c.C.OneByte = sg.oneByte
 		c.RunPeer("peer", c.HsLen, steps, nil)
 		derr := c.Cl.Do(context.Background(), q)
 		vsched.Quiet(func() { _ = c.Cl.Close() })
@@ -331,11 +359,11 @@ func body03(k c03case) Body {
 			got = "exception{" + strings.Join(parts, ";") + "}"
 			// every code of the chain must be matchable
 			if !ch.IsErr(derr, e.Code) {
-				return Outcome{Key: "C03/exception-not-matchable", Detail: fmt.Sprintf("IsErr(err, %d) is false for %v", e.Code, derr)}
+				return Outcome{Key: prop + "/exception-not-matchable", Detail: fmt.Sprintf("IsErr(err, %d) is false for %v", e.Code, derr)}
 			}
 			for _, n := range append([]ch.Exception{*e}, e.Next...) {
 				if !errors.Is(derr, n.Code) {
-					return Outcome{Key: "C03/exception-chain-not-matchable", Detail: fmt.Sprintf("errors.Is(err, %d) is false for nested code of %v", n.Code, derr)}
+					return Outcome{Key: prop + "/exception-chain-not-matchable", Detail: fmt.Sprintf("errors.Is(err, %d) is false for nested code of %v", n.Code, derr)}
 				}
 			}
 		}
@@ -353,14 +381,14 @@ func body03(k c03case) Body {
 			case strings.HasPrefix(wantRes, "exception"):
 				cls = "exception-chain"
 			}
-			return Outcome{Obs: obs, Key: "C03/return/" + cls, Detail: fmt.Sprintf("Do returned %q (%v), the reference interpreter expects %q; callback trace so far %v", got, derr, wantRes, trace)}
+			return Outcome{Obs: obs, Key: prop + "/return/" + cls, Detail: fmt.Sprintf("Do returned %q (%v), the reference interpreter expects %q; callback trace so far %v", got, derr, wantRes, trace)}
 		}
 		if strings.Join(trace, "\n") != strings.Join(wantTrace, "\n") {
 			cls := "content"
 			if len(trace) != len(wantTrace) {
 				cls = "count"
 			}
-			return Outcome{Obs: obs, Key: "C03/callback-trace/" + cls + "/" + k.binding, Detail: fmt.Sprintf("callbacks observed:\n  %s\nexpected:\n  %s", strings.Join(trace, "\n  "), strings.Join(wantTrace, "\n  "))}
+			return Outcome{Obs: obs, Key: prop + "/callback-trace/" + cls + "/" + k.binding, Detail: fmt.Sprintf("callbacks observed:\n  %s\nexpected:\n  %s", strings.Join(trace, "\n  "), strings.Join(wantTrace, "\n  "))}
 		}
 		return Outcome{Obs: obs}
 	}
